@@ -496,6 +496,19 @@ impl Prop for C17 {
     }
 
     fn check(c: &Case, obs: &mut Obs) {
+        // history round (core::history_round): the same inputs with `graphemes` flipped in between
+        if history_round(
+            c,
+            obs,
+            |c| {
+                let mut v = c.clone();
+                v.graphemes = !v.graphemes;
+                v
+            },
+            Self::check,
+        ) {
+            return;
+        }
         check_groups_and_matrix(c, obs);
         check_tensorize(c, obs);
     }
@@ -550,6 +563,12 @@ fn check_groups_and_matrix(c: &Case, obs: &mut Obs) {
     let mut any_nested_multi = false;
     let mut n_groups = 0u64;
     for text in &c.texts {
+        // history on the same tokenizer object: every second text is first tokenised with the
+        // other flag value (result ignored), so that anything remembered per text shows
+        if hash64(text) % 2 == 0 {
+            let _ = catch(|| tok.tokenize(text, !c.ignore_special));
+            obs.tag("history/same-text-other-flag-first");
+        }
         let t = match guarded(obs, "tokenize", || tok.tokenize(text, c.ignore_special)) {
             Some(Ok(t)) => t,
             Some(Err(e)) => {
